@@ -201,6 +201,11 @@ func (m MappingValues) Get(key I2PString) I2PString {
 // The values are sorted in the order defined in mappingOrder.
 // Returns error if the total mapping data exceeds the maximum size (65535 bytes).
 func ValuesToMapping(values MappingValues) (*Mapping, error) {
+	// ReadMapping stops after MAX_MAPPING_PAIRS pairs, so a larger mapping could not be
+	// read back: reject it here rather than produce bytes that parse with errors.
+	if len(values) > MAX_MAPPING_PAIRS {
+		return nil, oops.Errorf("mapping has %d pairs, exceeds maximum %d", len(values), MAX_MAPPING_PAIRS)
+	}
 	mappingOrder(values)
 
 	// Default length to 2 * len
